@@ -443,6 +443,37 @@ def size_of(vm, m, callee, args):
     return mk_int({'u8': 1, 'i8': 1, 'bool': 1, 'u16': 2, 'i16': 2, 'u32': 4, 'i32': 4, 'u64': 8, 'i64': 8, 'usize': 8, 'isize': 8}[t], 'usize')
 
 
+def _scalar_eq(vm, a, b):
+    a, b = dv(vm, a), dv(vm, b)
+    while isinstance(a, Ref):
+        a = dv(vm, a)
+    while isinstance(b, Ref):
+        b = dv(vm, b)
+    if isinstance(a, BV) and isinstance(b, BV):
+        return a.v == b.v
+    if isinstance(a, Struct) and isinstance(b, Struct) and len(a.fields) == len(b.fields):
+        return And([_scalar_eq(vm, x, y) for x, y in zip(a.fields, b.fields)])
+    try:
+        return bool_(a) == bool_(b)
+    except Exception:
+        raise Unsupported('equality of %r and %r' % (a, b))
+
+
+@native(r'^<std::option::Option<.*> as PartialEq>::(eq|ne)$', 'Option<T> == Option<T> for integer / bool / reference payloads')
+def opt_eq(vm, m, callee, args):
+    a, b = dv(vm, args[0]), dv(vm, args[1])
+    la = a.alts if isinstance(a, SymEnum) else [(BoolVal(True), a)]
+    lb = b.alts if isinstance(b, SymEnum) else [(BoolVal(True), b)]
+    out = []
+    for ca, x in la:
+        for cb, y in lb:
+            if x.variant != y.variant:
+                continue
+            out.append(And(ca, cb) if x.variant == 'None' else And(ca, cb, _scalar_eq(vm, x.fields[0], y.fields[0])))
+    r = Or(out) if out else BoolVal(False)
+    return r if callee.endswith('::eq') else Not(r)
+
+
 @native(r'^<&?bool as (std::ops::)?Not>::not$', 'bool negation')
 def bool_not(vm, m, callee, args):
     return Not(bool_(dv(vm, args[0])))
@@ -529,7 +560,7 @@ def it_rev(vm, m, callee, args):
     return Iter('rev', inner=args[0])
 
 
-@native(r' as Iterator>::(cloned|copied)$', 'Iterator::cloned / copied')
+@native(r' as Iterator>::(cloned|copied)(::<.*>)?$', 'Iterator::cloned / copied')
 def it_cloned(vm, m, callee, args):
     return Iter('cloned', inner=args[0])
 
@@ -771,14 +802,20 @@ def vec_index(vm, m, callee, args):
     return Ref(holder.cell, holder.path + (('index', i),)) if isinstance(holder, Ref) else Ref(Cell(s.items[i]))
 
 
-@native(r'^<\[.*\] as (std::ops::)?Index<(std::ops::)?RangeFrom<usize>>>::index$', 'slice[start..]')
-def slice_from(vm, m, callee, args):
-    s = dv(vm, args[0])
+@native(r'^<(std::vec::Vec<.*>|\[.*\]) as (std::ops::)?Index(Mut)?<(std::ops::)?Range(From|To)?<usize>>>::index(_mut)?$', 'vec / slice [a..b], [a..], [..b] (panics when out of range)')
+def slice_range(vm, m, callee, args):
+    s_ = dv(vm, args[0])
+    while isinstance(s_, Ref):
+        s_ = dv(vm, s_)
     r = dv(vm, args[1])
-    start = concrete_int(r.fields[0] if isinstance(r, Struct) else r)
-    if not isinstance(s, Seq) or start is None:
-        raise Unsupported('slice[start..] of %r' % (s,))
-    return Ref(Cell(Seq(s.items[start:], 'slice')))
+    kind = re.search(r'Range(From|To)?<usize>', callee).group(1)
+    f = [concrete_int(x) for x in r.fields]
+    if not isinstance(s_, Seq) or any(x is None for x in f):
+        raise Unsupported('range index of %r' % (s_,))
+    lo, hi = (f[0], len(s_.items)) if kind == 'From' else ((0, f[0]) if kind == 'To' else (f[0], f[1]))
+    if lo > hi or hi > len(s_.items):
+        raise NativePanic('range %d..%d out of range for a slice of length %d' % (lo, hi, len(s_.items)))
+    return Ref(Cell(Seq(s_.items[lo:hi], 'slice')))
 
 
 @native(r' as Iterator>::(find|any|all)::<', 'Iterator::find / any / all over a concrete-length stream (predicate evaluated on every element up to the first hit; one fork per outcome)')
